@@ -1,5 +1,6 @@
 """C01 — compositing leaves in every pixel the value the operator's equations define (narrow pipeline)."""
 from checks import compositecommon as cc
+from checks import C01float
 
 P = "Pixman.Props.C01."
 REQUIRED = [P + n for n in [
@@ -41,23 +42,27 @@ RULE = ("1-row composites of 1..19 pixels through pixman_image_composite32, once
 
 
 def run(ctx):
-    broken = ctx.lean_obligations("Pixman.Props.C01", REQUIRED)
+    broken = ctx.lean_obligations("Pixman.Props.C01", REQUIRED + C01float.REQUIRED_FLOAT, extra_modules=["Pixman.Props.C01Float"])
     quick = ctx.tier == "quick"
     findings = cc.run_streams(ctx, 0, 60000 if quick else 150000, 16 if quick else 64)
     ctx.cov["rule"] = RULE
     cc.report(ctx, findings)
+    C01float.run_float(ctx)       # operators / formats evaluated in floating point (wide pipeline)
     if broken and not ctx.violations:
         ctx.broken_obligations_verdict(broken, "composite correspondence stream (both chains) and Spec oracle found no failing input")
     ctx.assumptions += [
-        "narrow pipeline only: the 13 Porter-Duff/ADD operators (exact Spec) and the 8 integer PDF blend modes (model "
+        "narrow pipeline stream: the 13 Porter-Duff/ADD operators (exact Spec) and the 8 integer PDF blend modes (model "
         "correspondence; real-valued PDF equation within 0.5 step, MULTIPLY 1.5, on premultiplied inputs) on formats of at "
         "most 8 bits per channel with 8/16/32 bpp; no transform, no repeat effect, no alpha map, no dither",
-        "excluded (float pipeline, not generated): SATURATE, DISJOINT_*, CONJOINT_*, COLOR_DODGE, COLOR_BURN, SOFT_LIGHT, HSL_*, "
-        "wide formats (10-bit, sRGB, float), 1/4/24-bpp and indexed/YUV formats",
+        "float pipeline stream (checks/C01float.py): see the float_* assumptions below; 1/4/24-bpp and indexed/YUV formats not generated",
         "SIMD loop structure is exercised by the rows but not modelled: the model is per pixel",
         "macro arguments and temporaries of pixman-combine32.h are unsigned values of at most 32 bits (uint32_t arithmetic)",
     ]
 
 
 def replay(ctx, path):
-    cc.replay(ctx, path)
+    import json
+    if json.loads(open(path).read()).get("domain") == "compositeq":
+        C01float.replay(ctx, path)
+    else:
+        cc.replay(ctx, path)
